@@ -8,6 +8,9 @@ import PyGqlModel.Spec.ValidDoc
 import PyGqlModel.Spec.MergeSafe
 import PyGqlModel.Spec.ValidDocR
 import PyGqlModel.Spec.SchemaChecks
+import PyGqlModel.Spec.DocChecks
+import PyGqlModel.ExecOfValidate
+import Driver.VDocCodec
 open PyGql PyGql.Exec
 
 namespace Driver.ExecOps
@@ -109,6 +112,16 @@ def responseToJson : Response → J
   | .failed .unsupported => .obj [("unsupported", .bool true)]
   | .failed (.raised _ _ _) => .obj [("internal", .str "ResolverError")]     -- unreachable: `execute` turns it into a result
 
+mutual
+partial def eraseLocSel : Sel → Sel
+  | .field key name _ dirs args hs sub => .field key name 0 dirs args hs (sub.map eraseLocSel)
+  | .inline on dirs sub => .inline on dirs (sub.map eraseLocSel)
+  | .spread name dirs => .spread name dirs
+end
+def eraseLocsDoc (d : Doc) : Doc :=
+  { ops := d.ops.map fun o => { o with sels := o.sels.map eraseLocSel },
+    frags := d.frags.map fun f => { f with sels := f.sels.map eraseLocSel } }
+
 def handle? (j : J) : Option J :=
   match j.strD "op" with
   | "exec" =>
@@ -130,9 +143,28 @@ def handle? (j : J) : Option J :=
                 ("validdoc_r", .bool (PyGql.Spec.validDocRB s doc vars)), ("ops_rooted", .bool (PyGql.Spec.opsRooted s doc)),
                 ("schema_checks", .bool (PyGql.Spec.schemaChecksB (PyGql.Spec.withBuiltins s))),
                 ("schema_checks_exec", .bool (PyGql.Spec.schemaChecksExecB s)),
+                ("field_owners", .bool (PyGql.Spec.fieldOwnersB (PyGql.Spec.withBuiltins s))),
                 ("key_consistent", .bool (PyGql.Spec.keyConsistentB doc)), ("ranked", .bool (PyGql.Spec.rankedB doc)),
                 ("merge_safe", .bool (PyGql.Spec.mergeSafeB s doc)),
                 ("dirs_strict", .bool (PyGql.Spec.dirsStrict vars (PyGql.Spec.docDirs doc)))])
+  | "edoc" =>
+    -- the translation the bridge theorems are stated on (`eDoc`, from the validator-side document) against the
+    -- executor-side document this driver executes (field locations apart: `eDoc` carries the selection-set identity there)
+    let s := Driver.schemaOfJson (j.getD "schema")
+    let vars := varsOfJson (j.getD "vars")
+    let env : ArgEnv := { reg := regOfSchema s, fuel := 400, vars := vars.map fun (k, v) => (k, pvOfJ v) }
+    let doc := docOfJson s env (j.getD "doc")
+    let vd := VDoc.docOfJson (j.getD "vdoc")
+    let ed := PyGql.Props.C05.eDoc (PyGql.Spec.withBuiltins s) env vd
+    let r1 := reprStr (eraseLocsDoc ed)
+    let r2 := reprStr (eraseLocsDoc doc)
+    some (.obj [("same", .bool (r1 == r2)),
+                ("edoc", if r1 == r2 then .null else .str r1), ("doc", if r1 == r2 then .null else .str r2),
+                ("ids", .bool (PyGql.Validate.wfIdsB vd)), ("meta", .bool (PyGql.Validate.noMetaSubsB vd)),
+                ("aliases", .bool (PyGql.Props.C05.aliasesB vd)),
+                ("names", .bool ((PyGql.Validate.Spec.fragNames vd).all (· != ""))),
+                ("no_introspection", .bool (PyGql.Props.C05.noIntrospectionB vd)),
+                ("doc_checks", .bool (PyGql.Props.C05.docChecksB vd))])
   | "world" =>
     let s := Driver.schemaOfJson (j.getD "schema")
     let w := fnvWorld s (j.natD "seed") (j.natD "mode")
